@@ -54,7 +54,8 @@ type SolveResult struct {
 var SolverCmds = map[string][]string{
 	"z3":     {"z3", "-in", "-smt2"},
 	"z3-new": {"z3-new", "-in", "-smt2"},
-	"cvc5":   {"cvc5", "--lang=smt2", "--produce-models", "--nl-cov"},
+	"cvc5":   {"cvc5", "--lang=smt2", "--produce-models"},
+	"cvc5n":  {"/verif/tools/cvc5n", "--nl-cov"},
 }
 
 func runOne(ctx context.Context, name, smt string, timeout time.Duration) (status string, values []string, raw string, secs float64) {
@@ -62,7 +63,7 @@ func runOne(ctx context.Context, name, smt string, timeout time.Duration) (statu
 	switch name {
 	case "z3", "z3-new":
 		cmdv = append(cmdv, fmt.Sprintf("-T:%d", int(timeout.Seconds())+1))
-	case "cvc5":
+	case "cvc5", "cvc5n":
 		cmdv = append(cmdv, fmt.Sprintf("--tlimit=%d", timeout.Milliseconds()))
 	}
 	cctx, cancel := context.WithTimeout(ctx, timeout+5*time.Second)
